@@ -368,9 +368,30 @@ pub fn run(mut ctx0: Ctx) {
                     _ => script.push(vh1::PeerStep::Yield(*ctx.rng.pick(&[1usize, 3, 8, 20]))),
                 }
             }
+            // how the session ends: the peer's orderly end (3 in 5), the relay side dropped without one, the client's end of
+            // stream (then the peer writes nothing: what reaches a client that is closing is a race by design)
+            let ending = match case % 5 {
+                1 => "gone.0",
+                3 => "ce",
+                _ => "eof.-",
+            };
+            if ending == "ce" {
+                script.retain(|s| !matches!(s, vh1::PeerStep::Write(_)));
+                written.clear();
+            }
             // the peer ends its side only when it has everything the client sent (an HTTP/1.1 tunnel has no half-close:
             // the end of the peer's stream ends the session)
             script.push(vh1::PeerStep::ReadUntil(total));
+            let events: Vec<String> = segs
+                .iter()
+                .map(|s| format!("u.{}", hex(s)))
+                .chain(script.iter().filter_map(|s| match s {
+                    vh1::PeerStep::Write(b) => Some(format!("d.{}", hex(b))),
+                    _ => None,
+                }))
+                .chain(std::iter::once(ending.to_string()))
+                .collect();
+            let relay_q = format!("c08 relay {}", events.join(";"));
             let mut chunks = vec![head.clone()];
             chunks.extend(segs.iter().cloned());
             let shape: Vec<String> = script
@@ -387,13 +408,25 @@ pub fn run(mut ctx0: Ctx) {
                 segs.iter().map(|s| s.len()).collect::<Vec<_>>(),
                 shape.join(", ")
             );
-            let opts = vh1::ClientOpts { capacity: 1 << 20, read_step: 0, drop_sink_after_eof: false, client_closes_last: true, peer_script: script, abort_relay: false };
+            let opts = vh1::ClientOpts { capacity: 1 << 20, read_step: 0, drop_sink_after_eof: false, client_closes_last: ending != "ce", peer_script: script, abort_relay: ending == "gone.0" };
             let st2 = st.clone();
             let handle = rt.spawn(async move { vh1::session_with(st2, chunks, true, vec![], opts).await });
             let obs = rt.block_on(async { tokio::time::timeout(std::time::Duration::from_secs(8), handle).await });
             ctx.stat("interleaved_sessions");
             match obs {
                 Ok(Ok(o)) => {
+                    // the same session put to the model of the relaying loop (TT/Model/H1Relay.lean)
+                    {
+                        let out = &o.transport_out;
+                        let body = out.windows(4).position(|w| w == b"\r\n\r\n").map(|p| out[p + 4..].to_vec());
+                        let end = match o.session_end.as_str() {
+                            "ok" => "graceful",
+                            "err" => "failed",
+                            x => x,
+                        };
+                        ctx.stat(&format!("relay_ending_{}", ending.split('.').next().unwrap()));
+                        ctx.emit(&relay_q, &format!("up={} down={} end={}", hexd(&o.upload), body.map(|b| hexd(&b)).unwrap_or("no-response".into()), end));
+                    }
                     let expect_up: Vec<u8> = segs.concat();
                     let out = &o.transport_out;
                     let down_ok = out.starts_with(b"HTTP/1.1 200 OK\r\n")
@@ -423,4 +456,12 @@ pub fn run(mut ctx0: Ctx) {
         }
     }
     ctx0.finish();
+}
+
+fn hexd(b: &[u8]) -> String {
+    if b.is_empty() {
+        "-".into()
+    } else {
+        hex(b)
+    }
 }
